@@ -236,11 +236,11 @@ Proof.
 Qed.
 
 Lemma rounds_inv cont fhc : forall cands s,
-  Ctl s -> length (excl s) <= fhc -> incl cands (hosts s) ->
+  Ctl s -> secure s = false -> length (excl s) <= fhc -> incl cands (hosts s) ->
   (forall h, In h cands -> ContOk cont (hosts s) (desc s) (excl s) h) ->
   Inv (rounds cont fhc cands s).
 Proof.
-  induction cands as [|c0 rest IH]; intros s HC Hfhc Hincl Hcont.
+  induction cands as [|c0 rest IH]; intros s HC Hsec Hfhc Hincl Hcont.
   - cbn [rounds]. unfold fail_other, drop_transport. destruct HC as [Ho Hc Ht Hw Hf Hcl Hex]. rewrite Hc.
     apply backoff_inv. constructor; auto.
   - cbn [rounds]. unfold pop_dial.
@@ -259,7 +259,7 @@ Proof.
       * inv_tac.
         -- rewrite Ho, Hc. reflexivity.
         -- match goal with H : PDial _ _ _ = PDial _ _ _ |- _ => injection H as <- <- <- end.
-           split; [lia|]. split; [assumption|]. intros x Hx. apply Hincl. now right.
+           split; [lia|]. split; [assumption|]. split; [|assumption]. intros x Hx. apply Hincl. now right.
         -- match goal with H : Some _ = Some _ |- _ => injection H as <- end. lia.
       * assert (Hnth : In (nth (Nat.min i (length (c0 :: rest) - 1)) (c0 :: rest) 0) (c0 :: rest))
           by (apply nth_In; cbn [length]; lia).
@@ -353,10 +353,32 @@ Ltac dinv H :=
   let Hex := fresh "Iex" in let Hv := fresh "Iv" in
   destruct H as [Ho Hc Hp Hv Ht Hw Hl Hs Hd Hwd Hf Hr Hpt Hex].
 
-Lemma inv_cur_none s : Inv s -> connected s = false -> cur s = None.
+(* a current connection exists only when connected, or while its pair-verify is in flight *)
+Lemma inv_cur_none s : Inv s -> connected s = false -> running s = false -> cur s = None.
 Proof.
-  intros H Hn. dinv H. unfold connected in Hn. destruct (cur s) as [c|] eqn:E; [|reflexivity].
-  destruct (Ic c eq_refl) as [Hs _]. congruence.
+  intros H Hn Hr. dinv H. unfold connected in Hn. destruct (cur s) as [c|] eqn:E; [|reflexivity].
+  destruct (Ic c eq_refl) as [[Hs _]|(h & f & r & u & Hp)]; [congruence|].
+  unfold running in Hr. rewrite Hp in Hr. discriminate.
+Qed.
+
+Lemma inv_cur_cases s c : Inv s -> cur s = Some c ->
+  opn s = [c] /\
+  ((secure s = true /\ (ph s = PDoneOk \/ exists u, ph s = PPost c u)) \/
+   (secure s = false /\ exists h f r u, ph s = PVerify c h f r u /\ In h (hosts s) /\ length (excl s) <= f)).
+Proof.
+  intros H Hc. dinv H. split; [rewrite Io; unfold cur_list; now rewrite Hc|].
+  destruct (Ic c Hc) as [Hx|(h & f & r & u & Hp)]; [now left|]. right.
+  destruct (Iv _ _ _ _ _ Hp) as (_ & Hs & Hin & Hl & _). split; [exact Hs|]. exists h, f, r, u. auto.
+Qed.
+
+(* in the phases without a current connection *)
+Lemma inv_nocur_phase s : Inv s ->
+  (ph s = PNone \/ ph s = PDoneAuth \/ ph s = PCancelled \/
+   (exists w, ph s = PSleep w) \/ (exists r d f, ph s = PDial r d f)) -> cur s = None.
+Proof.
+  intros H Hp. dinv H. destruct (cur s) as [c|] eqn:E; [|reflexivity].
+  destruct (Ic c eq_refl) as [[_ [Hx|[u Hx]]]|(h & f & r & u & Hx)];
+    destruct Hp as [Hp|[Hp|[Hp|[[w Hp]|[r' [d [f' Hp]]]]]]]; congruence.
 Qed.
 
 Lemma start_from s :
@@ -383,16 +405,14 @@ Proof.
   destruct (running s) eqn:Er.
   - unfold start_connector. unfold running in *. ss. rewrite Er. cbn [orb].
     inv_tac; eauto; try (rewrite Er; assumption).
-  - apply start_from; ss; auto;
+  - specialize (Hcur eq_refl). apply start_from; ss; auto;
       try (rewrite Io; unfold cur_list; now rewrite Hcur); try (rewrite It, Er; reflexivity).
 Qed.
 
 Lemma attempt_from_sleep s w : Inv s -> ph s = PSleep w -> Inv (attempt s).
 Proof.
   intros H Hp. assert (Hrun : running s = true) by (unfold running; now rewrite Hp).
-  assert (Hcur : cur s = None).
-  { dinv H. destruct (cur s) as [c|] eqn:E; [|reflexivity].
-    destruct (Ic c eq_refl) as [_ [Hx|[u Hx]]]; congruence. }
+  assert (Hcur : cur s = None) by (apply inv_nocur_phase; eauto 6).
   dinv H. apply attempt_inv. constructor; auto.
   - rewrite Io. unfold cur_list. now rewrite Hcur.
   - rewrite It, Hrun. reflexivity.
@@ -421,19 +441,13 @@ Ltac fin2 :=
   ss; try congruence; try discriminate; eauto; try symmetry; eauto;
   try (match goal with H : In _ [] |- _ => destruct H end).
 
-Lemma inv_cur_ph s c : Inv s -> cur s = Some c ->
-  opn s = [c] /\ secure s = true /\ (ph s = PDoneOk \/ exists u, ph s = PPost c u).
-Proof.
-  intros H Hc. dinv H. split; [rewrite Io; unfold cur_list; now rewrite Hc|]. now apply Ic.
-Qed.
-
 Lemma inv_cur_none_open s : Inv s -> cur s = None -> opn s = [].
 Proof. intros H Hc. dinv H. rewrite Io. unfold cur_list. now rewrite Hc. Qed.
 
 Lemma do_close_inv s : Inv s -> Inv (do_close s) /\ opn (do_close s) = [] /\ closing (do_close s) = true.
 Proof.
   intros H. destruct (cur s) as [c|] eqn:Ecur.
-  - destruct (inv_cur_ph s c H Ecur) as [Ho [Hs [Hp|[u Hp]]]]; dinv H.
+  - destruct (inv_cur_cases s c H Ecur) as [Ho [[Hs [Hp|[u Hp]]]|[Hs (h & f & r & u & Hp & _)]]]; dinv H.
     + unfold do_close, stop_connector, running. ss. rewrite Hp.
       unfold drop_transport. ss. rewrite Ecur, Ho. cbn [mem_nat]. rewrite Nat.eqb_refl. ss.
       rewrite remove_nat_single. split; [|split; reflexivity].
@@ -443,9 +457,18 @@ Proof.
       unfold drop_transport. ss. rewrite Ecur. cbn [mem_nat]. ss.
       unfold finish, resolve_waiters. ss. split; [|split; reflexivity].
       unfold running in *. rewrite Hp in *. fin; rewrite ?Hp in *; fin2; try (rewrite It; reflexivity).
+    + (* close()/shutdown() while the pair-verify request is in flight: the cancelled connector
+         closes its transport (_send_lines, then _drop_transport in _reconnect) *)
+      unfold do_close, stop_connector, running. ss. rewrite Hp. ss.
+      unfold drop_transport. ss. rewrite Ecur, Ho. cbn [mem_nat]. rewrite Nat.eqb_refl. ss.
+      rewrite remove_nat_single.
+      unfold finish, resolve_waiters. ss. split; [|split; reflexivity].
+      unfold running in *. rewrite Hp in *. fin; rewrite ?Hp in *; fin2; try (rewrite It; reflexivity).
   - pose proof (inv_cur_none_open s H Ecur) as Ho. dinv H.
     destruct (ph s) eqn:Ep;
       try (match goal with Hp : ph s = PPost ?c ?u |- _ => rewrite (Ip c u eq_refl) in Ecur; discriminate end);
+      try (match goal with Hp : ph s = PVerify _ _ _ _ _ |- _ =>
+             destruct (Iv _ _ _ _ _ Hp) as [Hx _]; rewrite Hx in Ecur; discriminate end);
       unfold do_close, stop_connector, running, drop_transport, finish, resolve_waiters; ss; rewrite ?Ep; ss;
       rewrite ?Ecur; ss; rewrite ?Ecur; ss;
       (split; [|split; [assumption || reflexivity|reflexivity]]);
@@ -455,7 +478,8 @@ Qed.
 
 Lemma lose_current_inv reset c s : Inv s -> cur s = Some c -> Inv (lose_current reset c s).
 Proof.
-  intros H Ecur. destruct (inv_cur_ph s c H Ecur) as [Ho [Hs [Hp|[u Hp]]]]; dinv H.
+  intros H Ecur.
+  destruct (inv_cur_cases s c H Ecur) as [Ho [[Hs [Hp|[u Hp]]]|[Hs (h & f & r & u & Hp & _)]]]; dinv H.
   - (* steady state: the connection in use is lost *)
     unfold lose_current. cbv zeta. ss. rewrite Hp. rewrite Ho, remove_nat_single.
     assert (Hrun : running s = false) by (unfold running; now rewrite Hp).
@@ -472,6 +496,10 @@ Proof.
       rewrite (Ir Hrun).
       apply start_from; ss; auto;
         try (rewrite It, Hrun; reflexivity); try (unfold wait_ok; ss; intros w d []).
+  - (* lost while its pair-verify request is in flight: the request fails, the connector backs off *)
+    assert (Hrun : running s = true) by (unfold running; now rewrite Hp).
+    unfold lose_current. cbv zeta. ss. rewrite Hp. rewrite Ho, remove_nat_single.
+    apply backoff_inv. constructor; ss; auto; try (rewrite It, Hrun; reflexivity).
 Qed.
 
 Lemma emit_inv e s : Inv s -> Inv (emit e s).
@@ -501,7 +529,7 @@ Lemma drop_inv reset c s : Inv s -> mem_nat c (opn s) = true ->
       end.
 Proof.
   intros H Hm. destruct (cur s) as [c'|] eqn:Ecur.
-  - destruct (inv_cur_ph s c' H Ecur) as [Ho _]. rewrite Ho in Hm. cbn in Hm.
+  - destruct (inv_cur_cases s c' H Ecur) as [Ho _]. rewrite Ho in Hm. cbn in Hm.
     destruct (Nat.eqb_spec c c') as [->|]; [|discriminate].
     now apply lose_current_inv.
   - rewrite (inv_cur_none_open s H Ecur) in Hm. discriminate.
@@ -573,6 +601,7 @@ Lemma set_now_inv t s :
   Inv (set_now t s).
 Proof.
   intros H Hle Hw Hp. dinv H. unfold running in *. fin.
+  - destruct (Iv _ _ _ _ _ H) as (H1 & H2 & H3 & H4 & H5). repeat split; auto. lia.
   - destruct (Is _ H) as [H1 H2]. split; [exact H1|lia].
   - destruct (Id _ _ _ H) as [H1 H2]. split; [lia|exact H2].
   - destruct (Iwd _ _ H) as [H1 H2]. specialize (Hw _ _ H). split; lia.
